@@ -167,6 +167,49 @@ theorem single_spend_inputs_distinct (sortFn : List Utxo → List Utxo) (hperm :
             subst h
             simpa using hd
 
+/-- `failed_build_rolls_back`: when any action fails, txbuilder.Build's rollback leaves the
+    keeper with exactly the reservations it had before (every reservation made on the way is
+    cancelled), the same reserved map, wallet records and height; the keeper invariant holds. -/
+theorem failed_build_rolls_back (sortFn : List Utxo → List Utxo) (k k' : Keeper) (hk : Inv k) (exp : Nat)
+    (actions : List Action) (es : List (Nat × BErr)) (h : buildWith sortFn k exp actions = (.error es, k')) :
+    SameRes k' k ∧ Inv k' := by
+  unfold buildWith at h
+  obtain ⟨new, hr⟩ := runActions_rinv sortFn exp k actions 0 (k, ⟨[], [], []⟩) [] (rinv_init k hk)
+  cases hrun : runActions sortFn exp actions 0 (k, ⟨[], [], []⟩) with
+  | mk s errs =>
+    obtain ⟨k1, b⟩ := s
+    rw [hrun] at h hr
+    simp only at h
+    cases errs with
+    | nil => simp at h
+    | cons e rest =>
+      simp only [List.isEmpty_cons, Bool.false_eq_true, if_false, Prod.mk.injEq, Except.error.injEq] at h
+      obtain ⟨_, rfl⟩ := h
+      obtain ⟨hinv, hres, hc, hu, hh⟩ := cancelAll_spec k1 hr.inv b.rids
+      have hreseq : (b.rids.foldl cancel k1).reservations = k.reservations := by
+        rw [hres, hr.res, hr.rids, List.filter_append]
+        have h1 : new.reverse.filter (fun r => !(new.map (·.id)).contains r.id) = [] := by
+          rw [List.filter_eq_nil_iff]
+          intro r hr'
+          have : r.id ∈ new.map (·.id) := List.mem_map_of_mem (List.mem_reverse.mp hr')
+          simp [this]
+        have h2 : k.reservations.filter (fun r => !(new.map (·.id)).contains r.id) = k.reservations := by
+          rw [List.filter_eq_self]
+          intro r hr'
+          have hb := hk.bound r hr'
+          have : ¬ r.id ∈ new.map (·.id) := by
+            intro hm
+            obtain ⟨r2, hr2, he⟩ := List.mem_map.mp hm
+            have := hr.fresh r2 hr2
+            have he' : r2.id = r.id := he
+            omega
+          simp [this]
+        rw [h1, h2]; rfl
+      refine ⟨⟨hreseq, lookup_of_reservations hinv hk hreseq, ?_, ?_, ?_⟩, hinv⟩
+      · rw [hc]; exact hr.same.1
+      · rw [hu]; exact hr.same.2.1
+      · rw [hh]; exact hr.same.2.2
+
 /-- merging spend actions does not change what the request asks for -/
 theorem mergeSpends_preserves_recipients (actions : List Action) : reqOuts (mergeSpends actions) = reqOuts actions := by
   unfold mergeSpends
